@@ -331,7 +331,7 @@ def install():
     import pedal.sandbox.sandbox as sbmod
     import pedal.sandbox.timeout as tomod
     IT = tomod.InterruptableThread
-    _orig.update(run=IT.run, start=IT.start, join=IT.join, is_alive=IT.is_alive)
+    _orig.update(run=IT.run, start=IT.start, join=IT.join, is_alive=IT.is_alive, async_raise=IT._async_raise)
     import pedal.sandbox.mocked as mkmod
     WATCH.update({sbmod.__file__, tomod.__file__, mkmod.__file__})    # mocked.py: the import hook writes sys.modules
     for p in WATCH:
@@ -436,8 +436,11 @@ def install():
 
     def async_raise(thread_id, exception):
         s = CUR
+        if s is None:
+            # no controlled execution is running (the free-running pass): the real interrupt
+            return _orig['async_raise'](thread_id, exception)
         name = NAMES.get(thread_id)
-        if s is None or name is None or not s.alive.get(name):
+        if name is None or not s.alive.get(name):
             raise ValueError("nonexistent thread id")      # what PyThreadState_SetAsyncExc reports
         s.pending[name] = exception() if isinstance(exception, type) else exception
         s.log.append(('async exception set for', name))
